@@ -40,6 +40,12 @@ tie    : T-diff.  Literal blocks, 30 fixed blocks and random update blocks over 
          language: full comparison with the model).  Section "structinst" (outside the Coq language): bitstruct construction S( args )
          with literal / closure-int / sized-literal / signal / slice / field / extension arguments of equal, narrower and wider width,
          nested constructors and struct-typed arguments of the same or another type, assigned to struct and BitsN targets.
+         Section "multi" (outside the Coq language): components with SEVERAL update blocks and several sub-components — one child class
+         instantiated with different width parameters (single children, structurally wired or block-driven inputs, homogeneous lists of
+         children) read / written from the parent's blocks; bitstruct types with ONE name and different field widths (two calls of a
+         factory) constructed and read in one component; same-named closure constants of different widths in different blocks.  Every
+         design is width-correct by construction except (half of them) for one deliberate mismatch: a correct design must be ACCEPTED
+         (key C10:correct-design-rejected:<hash>), an accepted one must not raise a width error, probed widths = checker widths.
          Section "arrays" (all outside the Coq language, evaluated the same way): bitstructs with 1-D / 2-D / 3-D list fields
          (non-square, sum of dims != product) in whole-struct <-> BitsN assignments (right width, near misses, the width a wrong packing
          rule would give), struct copies, element / row / scalar-field reads; 2-D / 3-D arrays of InPorts, of Bits constants (attribute /
@@ -135,6 +141,8 @@ class Design:
     s.extra = []         # further construct() lines: constants (closure / attribute), lists of constants, lists of signals
     s.siglists = []      # (name, count, width | [width of every leaf, row-major]) of (nested) InPort lists declared in s.extra
     s.force_unmodelled = False
+    s.header = ''        # module-level source: classes of sub-components, bitstruct factories
+    s.blocks = None      # [(block name, statements, closure lines)] when the component has several update blocks
   def add(s, ctor, t):
     name = {'InPort': 'i', 'OutPort': 'o', 'Wire': 'w'}[ctor] + str(len(s.sigs))
     s.sigs.append((name, ctor, t)); return len(s.sigs) - 1
@@ -237,6 +245,7 @@ def expr_coq(e):
 def lhs_src(D, l):
   k = l[0]
   if k == 'ltmp': return f't{l[1]}'
+  if k == 'lexpr': return expr_src(D, l[1])            # any other target (port of a sub-component): outside the Coq language
   base = D.sig_src(l[1], l[2])
   if k == 'lsig': return base
   if k == 'lslice': return f'{base}[{expr_src(D, l[3])}:{expr_src(D, l[4])}]'
@@ -246,6 +255,7 @@ def lhs_src(D, l):
 def lhs_coq(l):
   k = l[0]
   if k == 'ltmp': return f'(LTmp {l[1]}%nat)'
+  if k == 'lexpr': raise Unmodelled(k)
   if k == 'lsig': return f'(LSig {l[1]}%nat {natlist(l[2])})'
   if k == 'lslice': return f'(LSlice {l[1]}%nat {natlist(l[2])} {expr_coq(l[3])} {expr_coq(l[4])})'
   if k == 'lindex': return f'(LIndex {l[1]}%nat {natlist(l[2])} {expr_coq(l[3])})'
@@ -311,6 +321,7 @@ def stmt_nodes(D, ss):
     if s[0] == 'assign':
       _, lbl, l, e, blocking = s
       if l[0] == 'ltmp': out.append((f'tmptarget:t{l[1]}', None, False))
+      elif l[0] == 'lexpr': out += expr_nodes(D, l[1], None)
       elif l[0] == 'lsig': out += expr_nodes(D, ('sig', l[1], l[2]), None)
       elif l[0] == 'lslice': out += expr_nodes(D, ('slice', ('sig', l[1], l[2]), l[3], l[4]), None)
       elif l[0] == 'lindex': out += expr_nodes(D, ('index', ('sig', l[1], l[2]), l[3]), None)
@@ -377,18 +388,29 @@ def block_has_cast(ss):
 # ------------------------------------------------------------------ component source
 def component_src(D, ss, ff, frees, name='T', probe=False):
   lines = D.decl_src() + [f'K{j} = {v}' for j, v in enumerate(frees)]
-  lines += ['@update_ff' if ff else '@update', 'def up():'] + stmts_src(D, ss, 2, probe)
+  if D.blocks is None:
+    lines += ['@update_ff' if ff else '@update', 'def up():'] + stmts_src(D, ss, 2, probe)
+  else:
+    for bn, bss, clos in D.blocks:
+      blk = ['@update', f'def {bn}():'] + stmts_src(D, bss, 2, probe)
+      if clos:       # a block with its own closure constants: defined inside a helper scope
+        lines += [f'def _mk_{bn}():'] + ['  ' + l for l in clos + blk] + [f'_mk_{bn}()']
+      else: lines += blk
   body = '\n'.join('    ' + l for l in lines)
-  return STRUCT_SRC + f'\nclass {name}( Component ):\n  def construct( s ):\n{body}\n'
+  return STRUCT_SRC + D.header + f'\nclass {name}( Component ):\n  def construct( s ):\n{body}\n'
 
 def probe_func_src(D, ss, frees):
-  closure = [l for l in D.extra if not l.startswith('s.')]       # closure constants of construct()
-  lines = closure + [f'K{j} = {v}' for j, v in enumerate(frees)] + ['def __blk( s, __p ):'] + stmts_src(D, ss, 2, True)
+  closure = [l for l in D.extra if re.match(r'[A-Za-z_]\w* = ', l)]       # closure constants of construct()
+  lines = closure + [f'K{j} = {v}' for j, v in enumerate(frees)]
+  if D.blocks is None: lines += ['def __blk( s, __p ):'] + stmts_src(D, ss, 2, True)
+  else:
+    for bn, bss, clos in D.blocks:
+      lines += [f'def __blk_{bn}( s, __p ):'] + ['  ' + l for l in clos] + stmts_src(D, bss, 2, True)
   return '\n'.join(lines) + '\n'
 
 # ------------------------------------------------------------------ the real passes
 _OPS = None
-def real_typecheck(cls):
+def real_typecheck(cls, names=None):
   """returns ('accept', [(width, explicit)...]) | ('reject', msg) | ('elab', msg) | ('syntax', msg) | ('crash', msg)"""
   global _OPS
   from pymtl3.passes.rtlir import BehavioralRTLIRGenPass, BehavioralRTLIRTypeCheckPass
@@ -416,7 +438,9 @@ def real_typecheck(cls):
   except Exception as e:
     return ('crash', f'{type(e).__name__}: {str(e)[-300:]}')
   ups = m.get_metadata(BehavioralRTLIRGenL1Pass.rtlir_upblks)
-  (blk, up), = ups.items()
+  byname = {blk.__name__: up for blk, up in ups.items()}
+  order = [byname[n] for n in names] if names else list(byname.values())
+  assert len(order) == len(byname)
   out = []
   shift_ok = [True]
   def width(node):
@@ -435,7 +459,7 @@ def real_typecheck(cls):
       elif isinstance(v, list):
         for x in v:
           if isinstance(x, bir.BaseBehavioralRTLIR): walk(x)
-  walk(up)
+  for up in order: walk(up)
   return ('accept', out, shift_ok[0])
 
 def set_inputs(m, D, inputs):
@@ -486,7 +510,11 @@ def real_probe(cls, D, ss, frees, inputs, mod):
   ns = dict(vars(mod))
   exec(compile(probe_func_src(D, ss, frees), '<probe>', 'exec'), ns)
   try:
-    ns['__blk'](m, p)
+    if D.blocks is None: ns['__blk'](m, p)
+    else:
+      # let the real simulator settle every block (sub-components included), then re-execute each block of this component with probes
+      m.sim_eval_combinational()
+      for bn, bss, clos in D.blocks: ns['__blk_' + bn](m, p)
   except Exception as e:
     return ('err', err_class(e), events)
   return ('ok', events)
@@ -879,7 +907,7 @@ def process_block(ctx, D, ss, ff, frees, ninputs, tag, rng, feats=(), drive=None
   c.body = c.src.split('class T( Component ):')[1]
   c.modelled = True
   cls, mod = load_source(ctx, c.src, 'T')
-  c.tc = real_typecheck(cls)
+  c.tc = real_typecheck(cls, [b[0] for b in D.blocks] if D.blocks else None)
   if c.tc[0] in ('elab', 'syntax'):
     return c
   c.nodes = stmt_nodes(D, ss)
@@ -953,6 +981,12 @@ def check_cases(ctx, cases, section, lit_attr=None):
     nerr = sum(1 for ins, sim, pr in c.runs if sim[0] == 'err')
     ctx.count((section, c.body), True, cls=f'{section}:unmodelled:{c.tc[0]}' + (':raises' if nerr else ''))
     for f in c.feats: ctx.hist['feature:' + f] = ctx.hist.get('feature:' + f, 0) + 1
+    if getattr(c, 'expect_accept', False) and c.tc[0] != 'accept':
+      # completeness side: every assignment of this design has explicitly sized operands of matching widths (by construction)
+      ok_runs = all(sim[0] == 'ok' for ins, sim, pr in c.runs)
+      ctx.violation(f'C10:correct-design-rejected:{h}',
+                    f'every operation of this design has matching explicit widths (it simulates {"without error" if ok_runs else "?"}), but the RTLIR type checker rejects it: {str(c.tc[1])[:200]} design:{c.body[-500:]}',
+                    replay_of(c, {'checker_message': str(c.tc[1])[:600]}))
     if c.tc[0] != 'accept' or block_has_cast(c.ss): continue
     msg = next((sim[2] for ins, sim, pr in c.runs if sim[0] == 'err' and (sim[1] == 'EValue' or (sim[1] == 'EAssert' and '-bit <>' in sim[2]))), None)
     if not c.tc[2]: msg = None                 # a shift amount narrower / wider than the shifted value: exempt from the no-error clause
@@ -1710,6 +1744,162 @@ def structinst_cases(ctx, n, ninputs):
   for c in cases[:2]:
     ctx.sample({'section': 'structinst', 'block': c.body[-400:], 'checker': str(c.tc)[:200], 'simulation': str(c.runs[0][1])[:160] if c.tc[0] not in ('elab', 'syntax') else None})
 
+MULTI_HEADER = """
+class Inc( Component ):
+  def construct( s, T ):
+    s.in_ = InPort( T )
+    s.out = OutPort( T )
+    @update
+    def up_inc():
+      s.out @= s.in_ + 1
+class Join( Component ):
+  def construct( s, nbits ):
+    s.x = InPort( nbits )
+    s.y = InPort( nbits )
+    s.z = OutPort( nbits )
+    @update
+    def up_join():
+      s.z @= s.x ^ s.y
+def mk_msg( w ):
+  return mk_bitstruct( 'Msg', { 'hdr': mk_bits( w ), 'val': mk_bits( w ) } )
+def mk_pair( w ):
+  @bitstruct
+  class Pair:
+    lo: mk_bits( w )
+    hi: mk_bits( 2 * w )
+  return Pair
+"""
+
+class MultiGen:
+  """components with SEVERAL update blocks and several sub-components: one child class instantiated with different width parameters
+  (single children and a list of children) whose ports are written / read in the parent's blocks; bitstruct types with ONE name but
+  different field widths (two calls of a factory) constructed and read in one component; same-named closure constants of different
+  widths in different blocks.  Every statement is built with matching explicit widths, except (in about half of the designs) one
+  deliberately mismatching one.  Outside the Coq language: real checker + real simulation + probes; a design without mismatch must be
+  accepted; an accepted design must not raise a width error and probed widths must be the checker's."""
+  def __init__(s, rng):
+    s.rng = rng
+    D = s.D = Design(); D.force_unmodelled = True; D.header = MULTI_HEADER
+    s.feats = set()
+    s.lbl = 0
+    s.ins = {}; s.nout = 0
+    s.correct = True
+
+  def label(s):
+    s.lbl += 1; return s.lbl - 1
+  def inp(s, w):
+    """a fresh explicitly sized source of width w (its own input port: no write conflicts, every child input has one driver)"""
+    r = s.rng
+    if r.random() < 0.7 or w not in s.ins:
+      si = s.D.add('InPort', w); s.ins[w] = si
+    return ('sig', s.ins[w], ())
+  def out(s, w):
+    return ('lsig', s.D.add('OutPort', w), ())
+  def assign(s, l, e):
+    return ('assign', s.label(), l, e, True)
+
+  def build(s):
+    r = s.rng
+    D = s.D
+    ws = r.sample([4, 8, 16, 5], 2) if r.random() < 0.8 else [8, 8]
+    wa, wb = ws
+    bad = None if r.random() < 0.5 else r.choice(['child-read', 'child-write', 'list-child', 'struct-inst', 'struct-read', 'closure'])
+    if wa == wb: bad = None
+    other = lambda w: wb if w == wa else wa
+    blocks = []
+    order = r.random() < 0.5            # which of the two same-named things is met first
+    pairs = [(wa, 'a'), (wb, 'b')] if order else [(wb, 'b'), (wa, 'a')]
+    kinds = r.sample(['children', 'list-children', 'structs', 'closures', 'join'], r.choice([2, 3, 3, 4]))
+    if bad in ('child-read', 'child-write') and 'children' not in kinds: kinds.append('children')
+    if bad == 'list-child' and 'list-children' not in kinds: kinds.append('list-children')
+    if bad in ('struct-inst', 'struct-read') and 'structs' not in kinds: kinds.append('structs')
+    if bad == 'closure' and 'closures' not in kinds: kinds.append('closures')
+    for k in kinds: s.feats.add('multi:' + k)
+    if bad: s.feats.add('multi:mismatch:' + bad); s.correct = False
+    if 'children' in kinds:
+      D.extra += [f's.a = Inc( Bits{wa} )', f's.b = Inc( Bits{wb} )']
+      port = lambda c, p: ('cfield', ('carr', f's.{c}'), p)
+      drive = []; collect = []
+      wired = bad != 'child-write' and r.random() < 0.5        # the children's inputs are connected structurally: the blocks only read
+      if wired: s.feats.add('multi:children-inputs-connected')
+      for w, c in pairs:
+        if wired:
+          src = s.D.add('InPort', w); D.extra.append(f'connect( s.{c}.in_, s.{D.sigs[src][0]} )')
+        else:
+          drive.append(s.assign(('lexpr', port(c, 'in_')), s.inp(other(w) if bad == 'child-write' and c == pairs[1][1] else w)))
+        collect.append(s.assign(s.out(other(w) if bad == 'child-read' and c == pairs[1][1] else w), port(c, 'out')))
+      if wired: blocks += [('collect', collect, [])]
+      elif r.random() < 0.5: blocks += [('drive', drive, []), ('collect', collect, [])]
+      else: blocks += [('drive_' + c, [d], []) for (w, c), d in zip(pairs, drive)] + [('collect', collect, [])]
+    if 'list-children' in kinds:
+      # RTLIR wants the elements of ONE list to have the same interface: two homogeneous lists of the same child class, different widths
+      st = []
+      for w, c in pairs:
+        D.extra.append(f's.ch{c} = [ ' + ', '.join(f'Inc( Bits{w} )' for _ in range(2)) + ' ]')
+        el = lambda j, p, c=c: ('cfield', ('cidx', ('carr', f's.ch{c}'), ('lit', j)), p)
+        for j in range(2): st.append(s.assign(('lexpr', el(j, 'in_')), s.inp(w)))
+        for j in range(2):
+          st.append(s.assign(s.out(other(w) if bad == 'list-child' and c == pairs[1][1] and j == 1 else w), el(j, 'out')))
+      blocks.append(('kids', st, []))
+    if 'join' in kinds:
+      D.extra += [f's.ja = Join( {wa} )', f's.jb = Join( {wb} )']
+      port = lambda c, p: ('cfield', ('carr', f's.{c}'), p)
+      st = []
+      for w, c in pairs:
+        st += [s.assign(('lexpr', port('j' + c, 'x')), s.inp(w)), s.assign(('lexpr', port('j' + c, 'y')), ('bin', 'Add', s.inp(w), ('lit', 1)))]
+      blocks.append(('jdrive', st, []))
+      blocks.append(('jcollect', [s.assign(s.out(w), ('bin', 'And', port('j' + c, 'z'), s.inp(w))) for w, c in pairs], []))
+    if 'structs' in kinds:
+      fac = r.choice(['mk_msg', 'mk_pair'])
+      flds = (lambda w: [('hdr', w), ('val', w)]) if fac == 'mk_msg' else (lambda w: [('lo', w), ('hi', 2 * w)])
+      for w, c in pairs:
+        T = f'M{c}'
+        D.header += f'{T} = {fac}( {w} )\n'
+        STRUCTS[T] = flds(w)
+      st1, st2 = [], []
+      for w, c in pairs:
+        T = f'M{c}'
+        aw = other(w) if bad == 'struct-inst' and c == pairs[1][1] else w
+        args = [s.inp(fw if aw == w else (aw if fn in ('hdr', 'val', 'lo') else 2 * aw)) for fn, fw in flds(w)]
+        tot = lambda x: sum(fw for _, fw in flds(x))
+        q = r.random()
+        # target: a port of that struct type, or a BitsN port as wide as the struct (for a mismatching constructor: as wide as its arguments)
+        tgt = s.out(T) if (q < 0.4 and aw == w) else s.out(tot(aw))
+        st1.append(s.assign(tgt, ('sinst', T, args)))
+        # read a field of a struct-typed input of that type
+        i = D.add('InPort', T)
+        fw = flds(w)[0][1]
+        st2.append(s.assign(s.out(flds(other(w))[0][1] if bad == 'struct-read' and c == pairs[1][1] else fw), ('sig', i, (0,))))
+      blocks.append(('build_msgs', st1, []))
+      blocks.append(('read_msgs', st2, []))
+    if 'closures' in kinds:
+      for w, c in pairs:
+        cw = other(w) if bad == 'closure' and c == pairs[1][1] else w
+        v = r.getrandbits(cw)
+        e = ('bin', r.choice(['Add', 'Xor', 'Or']), s.inp(w), ('fbits', 'C', cw, v))
+        blocks.append((f'clos_{c}', [s.assign(s.out(w), e)], [f'C = Bits{cw}( {v} )']))
+    if r.random() < 0.5: r.shuffle(blocks)
+    D.blocks = blocks
+    return [st for _, bss, _ in blocks for st in bss]
+
+def multi_cases(ctx, n, ninputs):
+  cases = []
+  saved = dict(STRUCTS)
+  for i in range(n):
+    g = MultiGen(ctx.rng)
+    ss = g.build()
+    c = process_block(ctx, g.D, ss, False, [], ninputs, f'multi:{i}', ctx.rng, feats=sorted(g.feats))
+    c.expect_accept = g.correct
+    cases.append(c)
+  check_cases(ctx, cases, 'multi')
+  STRUCTS.clear(); STRUCTS.update(saved)
+  v = {}
+  for c in cases:
+    k = ('all-widths-match' if c.expect_accept else 'one-mismatch') + ':' + c.tc[0]; v[k] = v.get(k, 0) + 1
+  ctx.extra['multi_verdicts'] = v
+  for c in cases[:2]:
+    ctx.sample({'section': 'multi', 'design': c.body[-700:], 'checker': str(c.tc)[:200], 'simulation': str(c.runs[0][1])[:160] if c.tc[0] not in ('elab', 'syntax') else None})
+
 def random_cases(ctx, n, ninputs):
   cases = []
   for i in range(n):
@@ -1732,7 +1922,8 @@ def run(ctx):
   array_cases(ctx, 100 if quick else 800, 8 if quick else 16)
   operand_order_cases(ctx, not quick)
   structinst_cases(ctx, 100 if quick else 800, 3 if quick else 5)
-  random_cases(ctx, 300 if quick else 2000, 6 if quick else 8)
+  multi_cases(ctx, 60 if quick else 500, 2 if quick else 4)
+  random_cases(ctx, 260 if quick else 1800, 6 if quick else 8)
 
 def main(ctx):
   ctx.trusted += ['harness/c10.py prints the same block as Python source and as a Coq term (cross-checked on every block: the number and order of RTLIR nodes of the real tree must match the term)',
@@ -1751,6 +1942,6 @@ def main(ctx):
   except Exception as e:
     ctx.note('correspondence crashed: ' + traceback.format_exc()[-1500:])
     ctx.violation('C10:harness-crash', f'correspondence could not run: {e!r}', {'traceback': traceback.format_exc()}, found_input=False)
-  return ctx.finish(rule='(1) literals 2^k-1,2^k,2^k+1 (k<=70/80) as a Number node, as a loop bound and against a k-bit signal; (2) 30 fixed blocks, one per checker rule / missing check; (2f) 120/864 operand-order blocks (implicit int left/right of every operator at and beyond the signal width); (2e) 100/800 bitstruct constructor blocks; (2d) 100/800 blocks over bitstructs with multi-dimensional list fields (struct <-> BitsN, element reads) and 2-D/3-D arrays of signals / constants, homogeneous and heterogeneous, index signals driven through every element; (2c) 70/600 blocks of 2-3 nested for loops whose slices / indices mix loop variables, offsets, scales and constants on the read and the written side (accepted x[e:e+K] forms and the near misses the checker must reject) + 16 fixed ones; (2b) 160/1000 blocks over free-variable constants (ints, Bits, bitstructs, lists of them with constant and signal index, fields, signal lists) against signals of equal / different width; '
+  return ctx.finish(rule='(1) literals 2^k-1,2^k,2^k+1 (k<=70/80) as a Number node, as a loop bound and against a k-bit signal; (2) 30 fixed blocks, one per checker rule / missing check; (2g) 60/500 multi-block designs with sub-components of one class and different widths, same-named bitstruct types and closure constants; (2f) 120/864 operand-order blocks (implicit int left/right of every operator at and beyond the signal width); (2e) 100/800 bitstruct constructor blocks; (2d) 100/800 blocks over bitstructs with multi-dimensional list fields (struct <-> BitsN, element reads) and 2-D/3-D arrays of signals / constants, homogeneous and heterogeneous, index signals driven through every element; (2c) 70/600 blocks of 2-3 nested for loops whose slices / indices mix loop variables, offsets, scales and constants on the read and the written side (accepted x[e:e+K] forms and the near misses the checker must reject) + 16 fixed ones; (2b) 160/1000 blocks over free-variable constants (ints, Bits, bitstructs, lists of them with constant and signal index, fields, signal lists) against signals of equal / different width; '
                          '(3) random type-directed update blocks (1-4 statements, depth<=3, 2-4 inputs and 2-4 outputs of Bits/bitstruct type, wildness 0-25%) each run on 6-8 random inputs; '
                          'distinct = distinct block texts; all non-trivial (every block is type-checked by the real passes, simulated and probed)')
